@@ -276,6 +276,8 @@ def finish(agg, bounds, assumptions, stubs, must_cover=(), explanation='', extra
 # ------------------------------------------------------------------ replay support
 
 def replay_dir(prop, name):
+    import re as _re
+    name = _re.sub(r'[^A-Za-z0-9_.-]+', '_', name)[:120]      # printed on the VIOLATION line: no blanks or quotes
     d = os.path.join(VERIF, 'replays', prop, name)
     shutil.rmtree(d, ignore_errors=True)
     os.makedirs(d)
